@@ -7,9 +7,11 @@ pub mod c02;
 pub mod c03;
 pub mod c06;
 pub mod c07;
+pub mod c10;
+pub mod c11;
 
 use crate::engine::DynProperty;
 
 pub fn registry() -> Vec<Box<dyn DynProperty>> {
-    vec![Box::new(c01::C01), Box::new(c02::C02), Box::new(c03::C03), Box::new(c06::C06), Box::new(c07::C07)]
+    vec![Box::new(c01::C01), Box::new(c02::C02), Box::new(c03::C03), Box::new(c06::C06), Box::new(c07::C07), Box::new(c10::C10), Box::new(c11::C11)]
 }
